@@ -144,4 +144,17 @@ theorem bbs_response_change_rejected [DecidableEq G] (g1 : G) (ys : List G) (rvl
 /-! removal / replacement of a required proof is decided by the dispatch, for every object:
 `C01.missing_proof_rejected`, `C01.other_variant_rejected`, `C01.verify_ok_covers_predicates`. -/
 
+/-- the items hashed for a commitment statement determine the commitment the proof carries and the
+recomputed value: a changed commitment changes what is hashed even if the responses are adjusted to keep
+the recomputed value (tie: `cm.recommit` compares both hashed items with the merlin log) -/
+theorem commitmentItems_binds {G : Type} (C R C' R' : G)
+    (h : AC.Sigma.commitmentItems C R = AC.Sigma.commitmentItems C' R') : C = C' ∧ R = R' := by
+  simp [AC.Sigma.commitmentItems] at h; exact h
+
+/-- likewise for the ElGamal part of a verifiable-encryption statement (tie: `eg.recommit`) -/
+theorem elgamalItems_binds {G : Type} (c1 c2 r1 r2 c1' c2' r1' r2' : G)
+    (h : AC.Sigma.elgamalItems c1 c2 r1 r2 = AC.Sigma.elgamalItems c1' c2' r1' r2') :
+    c1 = c1' ∧ c2 = c2' ∧ r1 = r1' ∧ r2 = r2' := by
+  simp [AC.Sigma.elgamalItems] at h; exact h
+
 end AC.C11
